@@ -194,6 +194,14 @@ class FuncVal:
         self.name = name or (fn.short if fn else "<lambda>")
 
 
+class PyFunc:
+    """A caller-supplied callback modelled by a python function (e.g. a label filter)."""
+
+    def __init__(self, fn, name="<callback>"):
+        self.fn = fn
+        self.name = name
+
+
 class ClassVal:
     def __init__(self, cls: ClassInfo):
         self.cls = cls
@@ -693,7 +701,7 @@ class Interp:
             if v.kind == "var":
                 return True
             raise Undecided("truth value of a symbolic string")
-        if isinstance(v, (ObjVal, FuncVal, ClassVal, ModuleVal, Builtin)):
+        if isinstance(v, (ObjVal, FuncVal, ClassVal, ModuleVal, Builtin, PyFunc)):
             return True
         raise Undecided("truth value of %r" % (v,))
 
@@ -776,6 +784,8 @@ class Interp:
             return None
         if isinstance(f, ClassVal):
             return self.instantiate(f.cls, args, kwargs, node)
+        if isinstance(f, PyFunc):
+            return f.fn(self, *args, **kwargs)
         if isinstance(f, Builtin):
             return self.call_builtin(f, args, kwargs, node)
         raise Undecided("call of %r%s" % (f, (" at " + norm(node)[:60]) if node is not None else ""))
@@ -1498,6 +1508,17 @@ class Interp:
             m = max(len(i) for i in its) if its else 0
             return Lst([Tup([i[k] if k < len(i) else None for i in its]) for k in range(m)])
         if n in ("re.findall", "re.search", "re.sub", "re.split"):
+            if n == "re.findall" and all(isinstance(a, str) for a in args[:2]):
+                import re as _re
+
+                flags = 0
+                for a in args[2:]:
+                    if isinstance(a, Builtin) and a.name in ("re.I", "re.IGNORECASE"):
+                        flags |= _re.I
+                try:
+                    return Lst(list(_re.findall(args[0], args[1], flags)))
+                except _re.error:
+                    raise PyRaise("error", node)
             raise Undecided("regular expression on symbolic text")
         if n == "round":
             raise Undecided("round() of a symbolic number")
